@@ -86,6 +86,24 @@ def one(job):
         back = rng.randrange(1, 5_000_000)
         mx.items = [(k, (t - back if i >= j else t), f) for i, (k, t, f) in enumerate(mx.items)]
     kl = mx.keylog_text()
+    if mode == "dsb":
+        # no -s file: every connection's secrets travel in their own Decryption Secrets Block right in front of the
+        # connection's first packet (several blocks per capture; a cut never removes a block a remaining packet needs)
+        seen, items = set(), []
+        # one connection after the other (the second one's block then comes when the first has exported data already)
+        order = sorted(range(len(mx.items)), key=lambda k: mx.owners[k])
+        times = sorted(it[1] for it in mx.items)
+        mx.items = [(mx.items[k][0], t, *mx.items[k][2:]) for k, t in zip(order, times)]
+        mx.owners = [mx.owners[k] for k in order]
+        for it, owner in zip(mx.items, mx.owners):
+            if owner not in seen and owner < len(mx.kinds) and mx.kinds[owner][0] in ("tls", "quic"):
+                seen.add(owner)
+                kind, j = mx.kinds[owner]
+                lines = (mx.tls if kind == "tls" else mx.quic)[j]["keylog"]
+                items.append(("dsb", ("\n".join(lines) + "\n").encode()))
+            items.append(it)
+        mx.items = items
+        kl = None
     full = tool.run(mx.capture(), kl)
     desc = mx.describe()
     if full.crashed:
@@ -118,7 +136,7 @@ def one(job):
 def explore(ctx, scale=1):
     rng = ctx.rng
     n = ctx.n(18, 300) * scale
-    jobs = [(rng.getrandbits(48), *([(1, 0), (0, 1), (2, 0), (1, 1)][i % 4]), ["plain", "clock", "reuse13" if (i // 6) % 2 == 0 else "reuse", "retransmit", "clock", "retransmit"][i % 6])
+    jobs = [(rng.getrandbits(48), *([(1, 0), (0, 1), (2, 0), (1, 1)][i % 4] if not (i % 6 == 4 and (i // 6) % 2 == 0) else [(2, 0), (1, 1)][(i // 12) % 2]), ["plain", "clock", "reuse13" if (i // 6) % 2 == 0 else "reuse", "retransmit", "dsb" if (i // 6) % 2 == 0 else "clock", "retransmit"][i % 6])
             for i in range(n)]
     results = tool.pmap(one, jobs, procs=16 if ctx.thorough() else 8)
     o = ctx.oracle.setdefault("every-cut", {"runs": 0, "violations": 0})
